@@ -277,7 +277,9 @@ impl EqualityConstraint {
     /// // Normalizes to: -2x + y - 3z = 4
     /// ```
     pub fn new(coefficients: Vec<f64>, rhs: f64) -> EqualityConstraint {
-        match float_lt(rhs, 0.0) {
+        // exact sign test: a right-hand side in (-1e-5, 0) must be negated too, the standard
+        // form promises b >= 0 (negating a row is always sound, no tolerance is needed here)
+        match rhs < 0.0 {
             true => EqualityConstraint {
                 coefficients: coefficients.iter().map(|c| c * -1.0).collect(),
                 rhs: -rhs,
